@@ -34,7 +34,9 @@ static RunFn lookup(const std::string &cls, const std::string &lab) {
 
 // sanitizer option hooks: every abnormal end has a distinct exit code
 extern "C" __attribute__((used, visibility("default"))) const char *__asan_default_options() {
-    return "exitcode=77:detect_leaks=0:abort_on_error=0:allocator_may_return_null=0:detect_stack_use_after_return=0";
+    // max_allocation_size_mb / hard_rss_limit_mb: a loader that invents a huge index must end the run, not eat the machine
+    return "exitcode=77:detect_leaks=0:abort_on_error=0:allocator_may_return_null=0:detect_stack_use_after_return=0:"
+           "max_allocation_size_mb=3072:hard_rss_limit_mb=8192";
 }
 extern "C" __attribute__((used, visibility("default"))) const char *__ubsan_default_options() {
     return "halt_on_error=1:exitcode=77:print_stacktrace=0";
@@ -42,6 +44,17 @@ extern "C" __attribute__((used, visibility("default"))) const char *__ubsan_defa
 extern "C" __attribute__((used, visibility("default"))) const char *__tsan_default_options() {
     return "exitcode=66:halt_on_error=1:report_signal_unsafe=0:second_deadlock_stack=0";
 }
+
+#if defined(__SANITIZE_ADDRESS__) || defined(__SANITIZE_THREAD__)
+#define BGSIM_SANITIZED 1
+#elif defined(__has_feature)
+#if __has_feature(address_sanitizer) || __has_feature(thread_sanitizer)
+#define BGSIM_SANITIZED 1
+#endif
+#endif
+#ifndef BGSIM_SANITIZED
+#define BGSIM_SANITIZED 0
+#endif
 
 static std::string g_dir;
 static int rmOne(const char *p, const struct stat *, int, struct FTW *) { return remove(p); }
@@ -72,7 +85,9 @@ static bool runOne(const sim::Plan &plan, gs::Env &env, sim::RunResult &res) {
         fprintf(stderr, "bgsim: no instantiation for %s/%s\n", plan.cls.c_str(), plan.lab.c_str());
         exit(2);
     }
+    alarm(BGSIM_SANITIZED ? 300 : 120); // watchdog: a run that hangs ends with SIGALRM and is reported as such
     f(plan, res, env);
+    alarm(0);
     return !res.v.set;
 }
 
@@ -101,7 +116,7 @@ int main(int argc, char **argv) {
     uint64_t base = 1;
     int64_t start = 0, end = 0, stride = 1, gen = -1;
     long deadlineMs = 0;
-    bool trace = false, wild = false;
+    bool trace = false, wild = false, noRlimit = false;
     for (int i = 1; i < argc; ++i) {
         std::string a = argv[i];
         auto next = [&]() -> std::string { if (i + 1 >= argc) { fprintf(stderr, "missing value for %s\n", a.c_str()); exit(2); } return argv[++i]; };
@@ -113,6 +128,7 @@ int main(int argc, char **argv) {
         else if (a == "--gen") gen = std::stoll(next());
         else if (a == "--trace") trace = true;
         else if (a == "--wild") wild = true;
+        else if (a == "--no-rlimit") noRlimit = true;
         else if (a == "--deadline-ms") deadlineMs = std::stol(next());
         else { fprintf(stderr, "unknown argument %s\n", a.c_str()); return 2; }
     }
@@ -127,8 +143,10 @@ int main(int argc, char **argv) {
     }
     signal(SIGABRT, onAbort);
     std::set_terminate(onTerminate);
-    if (wild) { // full malformed alphabet: a correct loader may ask for huge allocations; bad_alloc is then a legitimate "throws"
-        struct rlimit rl; rl.rlim_cur = rl.rlim_max = 2UL << 30;
+    // wild = full malformed alphabet: a correct loader may ask for huge allocations; bad_alloc is then a legitimate "throws".
+    // Every uninstrumented worker gets an address-space cap so that a runaway allocation ends as bad_alloc.
+    if (!BGSIM_SANITIZED && !noRlimit) {
+        struct rlimit rl; rl.rlim_cur = rl.rlim_max = (wild ? 2UL : 6UL) << 30;
         setrlimit(RLIMIT_AS, &rl);
     }
     g_dir = "/dev/shm/bgsim." + std::to_string((long)getpid());
